@@ -10,9 +10,11 @@
 (***************************************************************************)
 EXTENDS Integers, Sequences, FiniteSets, TLC
 
-CONSTANTS MaxLen       \* longest sample sequence
+CONSTANTS MaxLen,      \* longest sample sequence over all DataValues
+          MaxLenV      \* longest sample sequence in which only the value changes (a value that drifts: each step within the
+                       \* deadband of the previous SAMPLE, the sum beyond the deadband of the last REPORTED value)
 
-Vs == {0, 1, 5, -10}
+Vs == {0, 1, 2, 5, -10}
 DVs == Vs \X {0, 1} \X {0, 1}
 Trigs == {"Status", "StatusValue", "StatusValueTimestamp"}
 \* deadband: none | absolute 0 | absolute 1 | absolute -1 (invalid) | percent 10 (no EU range known to the server)
@@ -20,7 +22,8 @@ Dbs == {"none", "abs0", "abs1", "absneg", "pct"}
 Filters == {[trig |-> t, db |-> d] : t \in Trigs, d \in Dbs}
 
 SeqsUpTo(S, n) == UNION {[1..k -> S] : k \in 1..n}
-Cases == {[f |-> f, dvs |-> q] : f \in Filters, q \in SeqsUpTo(DVs, MaxLen)}
+ValueOnly == {[i \in DOMAIN q |-> <<q[i], 0, 0>>] : q \in SeqsUpTo(Vs, MaxLenV)}
+Cases == {[f |-> f, dvs |-> q] : f \in Filters, q \in SeqsUpTo(DVs, MaxLen) \cup ValueOnly}
 
 IsNum(v) == v >= 0
 Abs(x) == IF x < 0 THEN -x ELSE x
